@@ -16,7 +16,7 @@ func VerifC16_UpdateParams() {
 	e := newCsEnv(false)
 	before := e.k.GetParams(e.ctx)
 	p := types.Params{Fee: verifDecAny("fee"), TaxRate: verifDecAny("tax"), UnilateralLiquidityFee: verifDecAny("ufee"),
-		PoolCreationFee: sdk.Coin{Denom: csStd, Amount: verifIntAny("pcf")}}
+		PoolCreationFee: sdk.Coin{Denom: verifDenomAny("pcfDenom", csStd), Amount: verifIntAny("pcf")}}
 	rightAuthority := verifChoice("authority", 2) == 0
 	auth := e.k.authority
 	if !rightAuthority {
@@ -44,10 +44,10 @@ func VerifC16_UpdateParams() {
 // the defaults end in success or an ordinary error - never a panic.
 func VerifC16_Consumers() {
 	verifExpect("ok")
-	e := newCsEnv(true) // symbolic params with Validate()==nil assumed
+	e := newCsEnvFee(true, verifDenomAny("pcfDenom", csStd)) // symbolic params with Validate()==nil assumed
 	one, w := big.NewInt(1), verifPow2(40)
 	e.seedPool("btc", verifIntIn("S", one, w), verifIntIn("T", one, w), verifIntIn("L", one, w))
-	for _, d := range []string{csStd, "btc", "eth"} {
+	for _, d := range []string{csStd, "btc", "eth", "uother"} {
 		e.bank.fund(e.sender, d, verifIntIn("bal_"+d, big.NewInt(0), verifPow2(132)))
 	}
 	amt := verifIntIn("amt", one, w)
